@@ -369,6 +369,9 @@ func (cr *cursor) updateNumSequence() bool {
 			// NU (NU | SY | IS)* (CL | CP) × (PO | PR)
 			return true
 		}
+		if cr.line == ucd.BreakNU { // ... but a new one may start right here
+			cr.numSequence = inNumSequence
+		}
 		return false
 	default:
 		panic("exhaustive switch")
